@@ -1,6 +1,7 @@
 //! C19: the statistical run the property specifies, on the real `random()`.
 //! 256 draws x n = 0..=12 x Lut and LutN x 1 and 16 threads; exact well-formedness,
-//! every position sees both values, draws pairwise distinct for n >= 3.
+//! every position sees both values, every variable is essential in some draw, draws pairwise
+//! distinct for n >= 3.
 
 use crate::lutapi::L;
 use crate::proto::*;
@@ -29,6 +30,14 @@ fn analyse(label: &str, n: usize, ds: &[Tab], fails: &mut Vec<String>) -> (usize
     let stuck: Vec<usize> = (0..nb).filter(|m| !(seen0[*m] && seen1[*m])).collect();
     if !stuck.is_empty() {
         fails.push(format!("{} n={}: {} positions never saw both values in {} draws (first: {})", label, n, stuck.len(), ds.len(), stuck[0]));
+    }
+    // not degenerate: every variable is essential in some draw (a fair generator gives a function
+    // that ignores variable v with probability 2^-(2^(n-1)) per draw: at most 2^-256 over 256 draws)
+    for v in 0..n {
+        let essential = ds.iter().any(|d| d.w.len() == table_size(n) && (0..nb).any(|m| d.bit(m) != d.bit(m ^ (1 << v))));
+        if !essential {
+            fails.push(format!("{} n={}: no draw out of {} depends on variable {} (all draws are degenerate)", label, n, ds.len(), v));
+        }
     }
     let mut distinct = ds.to_vec();
     distinct.sort_by(|a, b| a.w.cmp(&b.w));
